@@ -23,7 +23,8 @@ REQUIRED_THEOREMS = ['OpusProps.C18.' + t for t in (
     'gains_dequant_nowrap', 'decode_pitch_nowrap', 'inverse_pred_gain_nowrap',
     'inverse_pred_gain_reflection_bounded', 'nlsf2a_reflection_bounded',
     # index-safety bridge to the synthesis interior
-    'decode_core_indices_in_bounds', 'decode_core_safe_after_decode_pitch')]
+    'decode_core_indices_in_bounds', 'decode_core_safe_after_decode_pitch', 'plc_conceal_indices_in_bounds',
+    'decode_frame_indices_in_bounds', 'silk_synthesis_indices_in_bounds')]
 UNPROVED = ['nlsf2a_nowrap_d16 (the full statement is a comment block in OpusProps/C18.lean): for ORDERED NLSF vectors of order 16 '
             'the final subtraction a32_QA1[k] = -/+Qtmp - Ptmp (NLSF2A.c:125-126) fits 32 bits. Proved instead '
             '(nlsf2a_nowrap_d16_partial): everything before that subtraction fits for all in-range inputs, |a32_QA1| < 2^31.66, '
@@ -123,6 +124,7 @@ def ties(ctx):
     out.append(_tie('silkparams-pitch', [h, 'pitch', '0' if q else '1']))
     hs = _synthidx_harness(ctx)
     out.append(_tie('silkparams-synthidx-core', [hs, 'core', s, '4000' if q else '200000']))
+    out.append(_tie('silkparams-synthidx-frames', [hs, 'frames', s, '1500' if q else '60000']))
     _branch_notes(h, s, out)
     return out
 
@@ -179,8 +181,33 @@ def _spaced(x, d):
     return all(x[i] - x[i - 1] >= d[i] for i in range(1, len(x)))
 
 
-DECODER_OPS = {'synthcore', 'stab', 'unpack', 'nlsfdec', 'nlsf2a', 'invgain', 'lpcfit', 'bwexp32', 'gdeq', 'log2lin', 'pitch',
+DECODER_OPS = {'synthcore', 'synthframe', 'stab', 'unpack', 'nlsfdec', 'nlsf2a', 'invgain', 'lpcfit', 'bwexp32', 'gdeq', 'log2lin', 'pitch',
                'decparams'}
+
+
+def _synthframe_why(model, impl):
+    """Say which part of a silk_decode_frame case differs: recorded access extents of a phase, or the decoder state."""
+    if impl == 'ABORT':
+        return ('a celt_assert fired inside silk_decode_frame on a state / frame for which the index model (theorem '
+                'silk_synthesis_indices_in_bounds) shows none can')
+    def parts(s):
+        d = dict(re.findall(r'(core|plc|top|cng|glue)\{([^}]*)\}', s))
+        m = re.search(r' st=(.*)$', s)
+        d['st'] = m.group(1) if m else ''
+        return d
+    a, b = parts(model), parts(impl)
+    diff = [k for k in ('core', 'plc', 'top', 'cng', 'glue', 'st') if a.get(k) != b.get(k)]
+    if diff == ['st'] or 'st' in diff:
+        names = ['fs_kHz', 'nb_subfr', 'lossCnt', 'prevSignalType', 'lagPrev', 'first_frame_after_reset', 'sPLC.fs_kHz',
+                 'sPLC.pitchL_Q8', 'sPLC.nb_subfr', 'sPLC.subfr_length', 'sPLC.last_frame_lost', 'sPLC.rand_seed',
+                 'sCNG.fs_kHz', 'sCNG.rand_seed']
+        x, y = a.get('st', '').split(' '), b.get('st', '').split(' ')
+        bad = [names[i] for i in range(min(len(x), len(y), len(names))) if x[i] != y[i]]
+        return ('decoder state after silk_decode_frame differs from the state model on which the invariant of '
+                'silk_synthesis_indices_in_bounds is proved: %s%s' % (', '.join(bad) or 'state fields',
+                                                                      '; phases: ' + ','.join(d for d in diff if d != 'st') if len(diff) > 1 else ''))
+    return ('the element indices read / written in phase(s) %s of silk_decode_frame (recorded on the repo source) differ from '
+            'the index model on which silk_synthesis_indices_in_bounds is proved' % ','.join(diff))
 
 
 def classify(ctx, tie, mm):
@@ -194,6 +221,8 @@ def classify(ctx, tie, mm):
     why = None
     if impl in ('SANITIZER', 'ABORT', 'SIGSEGV'):
         why = 'the dequantiser trapped (%s: out-of-bounds table read, undefined behaviour or assertion) on this input' % impl
+    elif op == 'synthframe':
+        why = _synthframe_why(mm.get('model', ''), impl)
     elif op == 'synthcore':
         if impl == 'ABORT':
             why = ('a celt_assert of silk_decode_core / silk_LPC_analysis_filter fired on parameters for which the index model '
